@@ -765,7 +765,10 @@ func VerifC06KeySets() {
 func VerifC06Things() { c06Check([]string{"things"}, 1, 1, false, false) }
 
 // thorough: aliases, inline fragments, __typename; fields may live on both services
-func VerifC06Rich() { c06Check([]string{"items", "first", "things"}, 2, 2, true, true) }
+func VerifC06Rich() { c06Check([]string{"items", "things"}, 2, 1, true, false) }
+
+// thorough: fields that live on both services (the planner must prefer the current service)
+func VerifC06Both() { c06Check([]string{"items", "first"}, 2, 1, false, true) }
 
 // thorough: the real DirectExecutorClient -> Server.Execute -> ExecuteRequest path (rerunner per sub-request)
 func VerifC06RealClients() {
@@ -809,9 +812,12 @@ func VerifC06Refresh() {
 func VerifC06Repeats3() { c06Repeats(1, 3, 2) }
 func VerifC06RootRepeats() { c06Repeats(3, 1, 2) }
 
+// quick: the root field selected once or twice with 2 entries each, all on one service
+func VerifC06RootTwice() { c06Repeats(2, 2, 1) }
+
 // thorough: 4 entries; 3 roots x 2 entries; 3 partitions
 func VerifC06Repeats4()     { c06Repeats(1, 4, 3) }
-func VerifC06RootRepeats2() { c06Repeats(3, 2, 3) }
+func VerifC06RootRepeats2() { c06Repeats(2, 2, 3) }
 
 var _ = strconv.Itoa
 
